@@ -177,15 +177,15 @@ class Orders:
                             lo, up = const_value(sl.lower) if sl.lower else None, const_value(sl.upper) if sl.upper else None
                             hit = (isinstance(lo, int) or isinstance(up, int)) and not (sl.lower is None and up == 0)
                         if hit:
-                            self.sinks.append((fi, s, n, "constant positional access %s to row-ordered test data" % norm_text(n)))
+                            self.sinks.append((fi, s, n, "constant positional access %s to row-ordered data" % norm_text(n)))
                     if isinstance(n, ast.Call) and isinstance(n.func, ast.Attribute):
                         recv = self.oc(n.func.value, env, fi)
                         if recv in ("ROW", "ROWG") and n.func.attr in ORDER_METHODS:
-                            self.sinks.append((fi, s, n, "order-sensitive operation .%s() on row-ordered test data" % n.func.attr))
+                            self.sinks.append((fi, s, n, "order-sensitive operation .%s() on row-ordered data" % n.func.attr))
                         if recv in ("ROW", "ROWG") and n.func.attr == "drop_duplicates":
                             keep = next((const_value(k.value) for k in n.keywords if k.arg == "keep"), "first")
                             if keep is not False:
-                                self.sinks.append((fi, s, n, "drop_duplicates(keep=%r) on row-ordered test data" % keep))
+                                self.sinks.append((fi, s, n, "drop_duplicates(keep=%r) on row-ordered data" % keep))
                     if isinstance(n, ast.Call) and self.sorted_input_sinks:
                         fn0 = call_name(n) or ""
                         arr = None
